@@ -587,6 +587,29 @@ class Cli:
             elif f12:
                 self.stats["known_finding_scenarios_clean"] += 1
             self.nontrivial.add((sc["id"], name))
+        # warnings: -w silences them (they are then neither printed nor counted), --fail-on-warnings turns a counted warning into
+        # exit status 1; source rules and the same rules compiled by yarac must agree on what is printed
+        warn = os.path.join(rdir, "e%s_warn.yar" % sc["id"])
+        open(warn, "w").write('rule rwarn { strings: $a = "a" condition: $a }\nrule rslow { strings: $r = /al.*ha/ condition: $r }\n')
+        wcomp = os.path.join(rdir, "e%s_warn.yarc" % sc["id"])
+        run_cmd([yc, "-w", warn, wcomp])
+        ref = run_cmd([y, "-C", wcomp, f0])
+        wtable = [("warn-plain", [y, warn, f0], 0, True, True), ("warn-silenced", [y, "-w", warn, f0], 0, True, False),
+                  ("warn-fail", [y, "--fail-on-warnings", warn, f0], 1, False, True),
+                  ("warn-silenced-fail", [y, "-w", "--fail-on-warnings", warn, f0], 0, True, False),
+                  ("warn-silenced-fail-dir", [y, "-w", "--fail-on-warnings", "-p", "3", warn, small], 0, None, False),
+                  ("yarac-warn-fail", [yc, "--fail-on-warnings", warn, wcomp + ".2"], 1, None, True),
+                  ("yarac-warn-silenced-fail", [yc, "-w", "--fail-on-warnings", warn, wcomp + ".3"], 0, None, False)]
+        for (name, argv, exprc, same_out, expwarn), res in zip(wtable, self.pool.map(lambda t: run_cmd(t[1]), wtable)):
+            self.stats["exit_status_runs"] += 1
+            haswarn = "warning:" in res["err"]
+            bad = res["hang"] or res["rc"] != exprc or haswarn != expwarn or reported_error(res["err"]) or \
+                (same_out is True and sorted(res["out"].splitlines()) != sorted(ref["out"].splitlines())) or (same_out is False and res["out"].strip())
+            if bad:
+                self.violation("exit", sc, {"name": name, "argv": argv, "rc": res["rc"], "stderr_tail": res["err"][-400:], "stdout": res["out"][-300:],
+                                            "what": "warnings scenario %s: expected exit status %d, warning printed=%s, output %s" %
+                                                    (name, exprc, expwarn, "as of the compiled rules" if same_out else "empty" if same_out is False else "any")})
+            self.nontrivial.add((sc["id"], name))
 
 
 _TREES = {}
